@@ -105,7 +105,7 @@ def parse_duration(s):
     pattern = rf"^\s*(\d+)\s*({unit_pattern})\s*$"
 
     # case-insensitive regex matching
-    match = re.match(pattern, s, re.IGNORECASE)
+    match = re.match(pattern, s, re.IGNORECASE | re.ASCII)
     if not match:
         # Generate dynamic error message
         valid_units = ", ".join(f"'{value}'" for value in ParseDurationUnitFormat.list_values())
